@@ -39,6 +39,15 @@ let rec add n m =
   | O -> m
   | S p -> S (add p m)
 
+(** val sub : nat -> nat -> nat **)
+
+let rec sub n m =
+  match n with
+  | O -> n
+  | S k -> (match m with
+            | O -> n
+            | S l -> sub k l)
+
 (** val eqb : bool -> bool -> bool **)
 
 let eqb b1 b2 =
@@ -114,6 +123,15 @@ let rec existsb f = function
 let rec filter f = function
 | [] -> []
 | x :: l0 -> if f x then x :: (filter f l0) else filter f l0
+
+(** val skipn : nat -> 'a1 list -> 'a1 list **)
+
+let rec skipn n l =
+  match n with
+  | O -> l
+  | S n0 -> (match l with
+             | [] -> []
+             | _ :: l0 -> skipn n0 l0)
 
 type site = nat
 
@@ -1024,15 +1042,50 @@ let excludes_of_flag flag = match flag with
 
 (** val is_pkg_in_scope : str list -> str list -> str -> bool **)
 
-let rec is_pkg_in_scope inc exc path =
+let rec is_pkg_in_scope inc exc path0 =
   match inc with
   | [] -> false
   | i :: inc' ->
-    if has_prefix path i
-    then negb (existsb (has_prefix path) exc)
-    else is_pkg_in_scope inc' exc path
+    if has_prefix path0 i
+    then negb (existsb (has_prefix path0) exc)
+    else is_pkg_in_scope inc' exc path0
 
 (** val in_scope_flags : str -> str -> str -> bool **)
 
-let in_scope_flags inc_flag exc_flag path =
-  is_pkg_in_scope (includes_of_flag inc_flag) (excludes_of_flag exc_flag) path
+let in_scope_flags inc_flag exc_flag path0 =
+  is_pkg_in_scope (includes_of_flag inc_flag) (excludes_of_flag exc_flag)
+    path0
+
+type seg = nat
+
+type rseg =
+| Up
+| Seg of seg
+
+(** val rel : seg list -> seg list -> rseg list **)
+
+let rec rel base0 targ =
+  match base0 with
+  | [] -> app (map (fun _ -> Up) base0) (map (fun x -> Seg x) targ)
+  | b :: base' ->
+    (match targ with
+     | [] -> app (map (fun _ -> Up) base0) (map (fun x -> Seg x) targ)
+     | t :: targ' ->
+       if Nat.eqb b t
+       then rel base' targ'
+       else app (map (fun _ -> Up) base0) (map (fun x -> Seg x) targ))
+
+type path =
+| Abs of seg list
+| Relp of rseg list
+
+(** val rel_to_cwd : seg list -> path -> path **)
+
+let rel_to_cwd cwd p = match p with
+| Abs t -> Relp (rel cwd t)
+| Relp _ -> p
+
+(** val portion_after_sep : 'a1 list -> nat -> 'a1 list **)
+
+let portion_after_sep l occ =
+  skipn (sub (length l) (add occ (S O))) l
